@@ -145,6 +145,7 @@ fn build_item(i: &Item) -> P {
                     AnyAccept::Prefix(p) => b.starts_with(p.as_bytes()),
                     AnyAccept::Exact(e) => b == e.as_bytes(),
                     AnyAccept::NoDash => !b.starts_with(b"-"),
+                    AnyAccept::Not(e) => b != e.as_bytes(),
                 };
                 if ok {
                     Some(V::field(id, V::Bytes(b)))
